@@ -169,6 +169,11 @@ def build_all(desc):
             for ci in d.get("mon", []):
                 if ci < len(sts) and nports(desc, d["children"][ci]) > 0:
                     S.monitor_structure(sts[ci], name=f"M{k}_{ci}")
+            # dead branches may be declared monitors too (a wired branch that is emptied later, a placed empty model):
+            # when they are pruned away nothing of them may stay behind
+            for ci, ch in enumerate(d["children"]):
+                if ("zombie" in ch or "empty" in ch) and (k + ci) % 2 == 0 and len(d["children"]) >= 2:
+                    S.monitor_structure(sts[ci], name=f"Z{k}_{ci}")
         built[k] = (S, sts)
     return built
 
